@@ -82,7 +82,7 @@ func c13Gen(r *Rand, tier string) interface{} {
 		in.OnChild = r.Bool()
 	default:
 		in.Shape = 1
-		in.Depth = 1 + r.Intn(2)
+		in.Depth = 1 + r.Intn(4) // 1 root scope, 2 child scope, 3 / 4: the locker of a section on the root / child, shared by the clients (nested sections)
 		nt := 2 + r.Intn(3)
 		if tier == "thorough" {
 			nt = 2 + r.Intn(4)
@@ -199,11 +199,18 @@ func c13Run(inI interface{}, env *Env) *Failure {
 	seq := int64(0)
 	res := env.Sim(SimOpts{MaxSteps: 30000, FairSteps: 30000}, func() {
 		var ds app.DataScope = datascope.New(map[interface{}]interface{}{})
-		if in.Depth == 2 {
+		if in.Depth == 2 || in.Depth == 4 {
 			ds = datascope.NewChild(ds, map[interface{}]interface{}{})
 		}
 		for k := 0; k < c13Keys; k++ {
 			ds.SetValue(c13Key(k), 0) // every key lives in the object under test: no fall-through
+		}
+		var outer app.DataScopeLocker
+		if in.Depth >= 3 {
+			// the holder of a locked section hands its locker to several workers: their
+			// nested sections (locker.LockData) and plain accesses must be atomic among themselves
+			outer = ds.LockData()
+			ds = outer
 		}
 		var wg simrt.WaitGroup
 		wg.Add(len(in.Tasks))
@@ -228,9 +235,15 @@ func c13Run(inI interface{}, env *Env) *Failure {
 			})
 		}
 		wg.Wait()
+		if outer != nil {
+			_ = outer.Commit()
+		}
 	})
 	if res.Decisions > 0 {
 		env.Count("nontrivial")
+	}
+	if in.Depth >= 3 {
+		env.Count("probe.nested-sections-on-a-shared-locker")
 	}
 	if f := env.SimFailure("C13", res); f != nil {
 		return f
